@@ -19,6 +19,8 @@ def templates(tier, seed):
     # a check with one boolean output next to a row-level check: both kinds of failure case end up in one lazy report
     ts += [Template(tid, tmpl.pick(fn, ["channel", "lazy/channel", "schema_unchanged", "config_unchanged"]), args)
            for tid, fn, args in tmpl_pl.lazy_cases(tier) if "scalar_check" in tid]
+    # polars: coercion under each validation depth (a value that cannot be converted)
+    ts += [Template(tid, tmpl.pick(fn, ["channel"]), args) for tid, fn, args in tmpl_pl.depth_cases(tier) if tid.startswith("PL/DEPTHREL/")]
     N = 2
     for which in tmpl.UNUSUAL:
         ts.append(Template(f"U/{which}/N={N}", tmpl.pick(tmpl.unusual_case, LABELS + ["input_unchanged"]), (which, N)))
